@@ -27,10 +27,10 @@ theorem front_append_ok {fs : Files} {ls ext : List Str} {r' : List Stmt}
     rw [hp] at h
     rw [ha, hb]
     dsimp only at h ⊢
-    rw [show (64 : Nat) = 63 + 1 from rfl, expand_succ, go_append] at h
+    rw [show includeFuel fs = fs.length + 1 from rfl, expand_succ, go_append] at h
     obtain ⟨x, y, hx, hy, rfl⟩ := oapp_eq_ok h
-    exact ⟨x, y, by rw [show (64 : Nat) = 63 + 1 from rfl, expand_succ, hx],
-      by rw [show (64 : Nat) = 63 + 1 from rfl, expand_succ, hy], rfl⟩
+    exact ⟨x, y, by rw [show includeFuel fs = fs.length + 1 from rfl, expand_succ, hx],
+      by rw [show includeFuel fs = fs.length + 1 from rfl, expand_succ, hy], rfl⟩
   | _ => rw [hp] at h; cases h
 
 /-! ### symbol table -/
